@@ -320,6 +320,29 @@ def explore_cache(tier, seed, budget):
     return stats, hists
 
 
+def truth_stream(R, pid, tier, seed):
+    """C10, solver level: is_true / is_false relative to constraints and extra constraints, on every frontend class incl.
+    the VSA-backed ones, after adds / branch / merge / combine / split; only the over-claim clauses are C10's"""
+    classes = PLAIN + COMPOSITE + [["SolverReplacement", {}], ["SolverHybrid", {}], ["SolverReplacementCacheless", {}]]
+    jobs = jobs_generic(classes, "c10", 30, 300, n=8, truthy=True, multi=True)(tier, seed) + \
+        jobs_generic([["SolverVSA", {}], ["SolverHybrid", {}]], "c10a", 30, 300, n=4, truthy=True, multi=True, alpha="approx",
+                     cfg={"hybrid_exact": False})(tier, seed)
+    bad, stats = C.pipeline("w_solver", jobs, "TraceSolver.tla")
+    st = C.merge_stats(stats)
+    findings = C.load_findings(pid)
+    for _, tr, clause, extra in bad:
+        if clause not in TRUTH_CLAUSES:
+            continue
+        k = int(extra)
+        fid = match_finding(findings, tr, k, clause)
+        if fid:
+            R.add_known(fid["id"], fid["what"])
+            continue
+        R.add_violation({"property": pid, "clause": clause, "tid": tr["tid"], "step": k, "event": describe(tr["ev"][k - 1]),
+                         "vars": tr["vars"], "history": [describe(e) for e in tr["ev"][:k]]})
+    return st.get("calls", 0)
+
+
 def describe(ev):
     """short rendering of an event for replay files / finding predicates"""
     return {k: ev[k] for k in ("call", "s", "e", "es", "n", "v", "signed", "extra", "cs", "others", "ret", "rets",
